@@ -25,9 +25,16 @@ def main():
     checks = sys.argv[4:] or [prop]
     d = os.path.join(VERIF, "seeded", name)
     os.makedirs(d, exist_ok=True)
-    # regenerate the patch from the worktree to be sure it is what is applied there
+    # the patch is what is applied in the worktree (worktrees share one stash: never use git stash here)
     (rc, diff) = sh("git diff -- dds", cwd=wt)
-    open(os.path.join(d, "patch.diff"), "w").write(diff)
+    agent_patch = os.path.join(wt, "patch.diff")
+    if os.path.exists(agent_patch) and open(agent_patch, newline="").read().strip() != diff.strip():
+        print("WARNING: worktree diff differs from the agent's patch.diff; resetting the worktree to the agent's patch")
+        sh("git checkout -- dds", cwd=wt)
+        (rc, out) = sh("git apply patch.diff", cwd=wt)
+        assert rc == 0, out
+        (rc, diff) = sh("git diff -- dds", cwd=wt)
+    open(os.path.join(d, "patch.diff"), "w", newline="").write(diff)
     for f in ("demo.py", "NOTE.md"):
         if os.path.exists(os.path.join(wt, f)):
             shutil.copy(os.path.join(wt, f), os.path.join(d, f))
@@ -37,9 +44,11 @@ def main():
     meta["confirmed"]["tests_with_change"] = out.strip().split("\n")[-1]
     (rc1, out1) = sh("/venv/bin/python demo.py", cwd=wt, env=env, timeout=900)
     meta["confirmed"]["demo_with_change_exit"] = rc1
-    sh("git stash push -- dds", cwd=wt)
+    (rcx, outx) = sh("git apply -R %s" % os.path.join(d, "patch.diff"), cwd=wt)
+    assert rcx == 0, outx
     (rc0, out0) = sh("/venv/bin/python demo.py", cwd=wt, env=env, timeout=900)
-    sh("git stash pop", cwd=wt)
+    (rcx, outx) = sh("git apply %s" % os.path.join(d, "patch.diff"), cwd=wt)
+    assert rcx == 0, outx
     meta["confirmed"]["demo_without_change_exit"] = rc0
     ok = rc1 != 0 and rc0 == 0 and "59 passed" in meta["confirmed"]["tests_with_change"]
     meta["confirmed"]["ok"] = ok
